@@ -7,24 +7,45 @@ rendered as InfluxQL text and executed through query.Select + coordinator.LocalS
 import json
 import vlib
 
-NUM = {'quick': (5, 61), 'thorough': (170, 121)}     # (behaviours per worker, depth): 3 states per case
-WORKERS = {'quick': 3, 'thorough': 8}
+# one TLC simulation chunk = WORKERS x NUM behaviours of DEPTH states (3 states per case); chunks are repeated with
+# different seeds until TARGET pairs exist or the time budget is used (the thorough tier takes what fits)
+CHUNK = {'quick': dict(workers=3, num=5, depth=61), 'thorough': dict(workers=8, num=10, depth=121)}
+TARGET = {'quick': 300, 'thorough': 20000}
+BUDGET_S = {'quick': 240, 'thorough': 1200}
 
 
 def run(ctx):
+    import time
     tier = ctx.tier
-    num, depth = NUM[tier]
-    r = ctx.tlc('InfluxQL', f'InfluxQL.Sim_{tier}.cfg', simulate={'num': num}, depth=depth, workers=WORKERS[tier],
-                timeout=1500 if tier == 'thorough' else 600)
-    if r.timed_out:
-        raise vlib.Inconclusive('TLC simulation timed out')
-    if not r.ok:
-        # a law of the evaluator broken on the model: the reference semantics is inconsistent -> not a verdict on the code
-        raise vlib.Inconclusive(f'TLC reported {r.violated or "an error"} in the reference evaluator:\n' + r.stdout[-1500:])
+    ck = CHUNK[tier]
+    behaviours = []
+    t0 = time.time()
+    nchunks = 0
+    have = 0
+    while have < TARGET[tier] and (nchunks == 0 or time.time() - t0 < BUDGET_S[tier]):
+        r = ctx.tlc('InfluxQL', f'InfluxQL.Sim_{tier}.cfg', simulate={'num': ck['num'], 'seed': ctx.seed * 1000 + nchunks},
+                    depth=ck['depth'], workers=min(ck['workers'], vlib.NCPU), timeout=900, tag=f'sim{nchunks}')
+        if r.timed_out:
+            raise vlib.Inconclusive('TLC simulation timed out')
+        if not r.ok:
+            # a law of the evaluator broken on the model: the reference semantics is inconsistent -> no verdict on the code
+            raise vlib.Inconclusive(f'TLC reported {r.violated or "an error"} in the reference evaluator:\n' + r.stdout[-1500:])
+        for beh in ctx.sim_behaviours(r):
+            behaviours.append(beh)
+            have += sum(1 for st in beh if st.get('phase') == 'p1' and st.get('n', 0) > 0)
+        nchunks += 1
+    ctx.extra_cov['simulation_chunks'] = nchunks
+    # a focused stratum: GROUP BY time(w), host with fill over multi-series results (rare in the general mix)
+    fnum = 2 if tier == 'quick' else 12
+    r = ctx.tlc('InfluxQL', f'InfluxQL.Focus_{tier}.cfg', simulate={'num': fnum, 'seed': ctx.seed * 1000 + 777},
+                depth=ck['depth'], workers=min(ck['workers'], vlib.NCPU), timeout=900, tag='focus')
+    if r.timed_out or not r.ok:
+        raise vlib.Inconclusive('TLC focus simulation failed: ' + r.stdout[-1500:])
+    behaviours += list(ctx.sim_behaviours(r))
     cases = []
     npairs = 0
     kinds = {}
-    for beh in ctx.sim_behaviours(r):
+    for beh in behaviours:
         cur = None
         for st in beh:
             if st.get('phase') != 'p1' or st.get('n', 0) == 0:
@@ -65,6 +86,8 @@ def run(ctx):
         'SOFFSET only together with SLIMIT (both requirements are documented; without them results are documented as inconsistent)',
         'SLIMIT/SOFFSET count the series of the measurement that satisfy the tag predicate (ascending), with or without rows',
         'count() reports 0 for an empty window under fill(null); fill(previous) follows output order',
+        'mean() is merged by the code from per-series/per-shard partial means weighted by their counts, not computed as one '
+        'division: it is compared with relative tolerance 1e-12 against the exact rational sum/count; all other values exactly',
     ]
 
 
